@@ -643,6 +643,8 @@ func (m *Muxer) handleMultivariantPlaylist(w http.ResponseWriter, r *http.Reques
 }
 
 func (m *Muxer) generateMultivariantPlaylist(rawQuery string) ([]byte, error) {
+	rawQuery = escapeQuery(rawQuery)
+
 	// TODO: consider segments in all streams
 	maxBandwidth, averageBandwidth := bandwidth(m.streams[0].segments)
 
